@@ -239,7 +239,13 @@ static void parse_case(Ctx& c, uint64_t idx) {
 }
 static void parse_finish(Ctx& c) { if (states_seen) { for (int st : *states_seen) c.count(fmt("dfa_state_%d", st)); } }
 
-static Monitor mon = {"parse", "C01 C02 C04 (+C03 single range): all parse entry points, A and W, against the RFC automaton and splitter", "C03", parse_ncases, parse_case, parse_finish};
+static void parse_fuzz(Ctx& c, const unsigned char* d, size_t n) {
+    if (!monA) { monA = new ParseMon<ApiA>(); monW = new ParseMon<ApiW>(); states_seen = new std::set<int>(); }
+    if (n > 600) n = 600;
+    Str s((const char*)d, n); c.distinct(hash_str(s));
+    monA->run(c, s, "fuzz", true); monW->run(c, s, "fuzz", true);
+}
+static Monitor mon = {"parse", "C01 C02 C04 (+C03 single range): all parse entry points, A and W, against the RFC automaton and splitter", "C03", parse_ncases, parse_case, parse_finish, parse_fuzz};
 VF_REGISTER(mon);
 
 } // namespace
